@@ -1,12 +1,14 @@
 package core
 
 import (
+	"context"
 	dsql "database/sql"
 	"fmt"
 	"net"
+	"strings"
 	"time"
 
-	_ "github.com/go-sql-driver/mysql"
+	mysqldrv "github.com/go-sql-driver/mysql"
 
 	"github.com/dolthub/go-mysql-server/memory"
 	"github.com/dolthub/go-mysql-server/server"
@@ -21,9 +23,40 @@ type Srv struct {
 	Port int
 }
 
+// smallBufListener shrinks the kernel send buffer of every accepted connection, so that a result larger
+// than a few KB blocks the server's writer until the client reads: a slow-network mode that keeps the
+// server parked in the middle of writing a result.
+type smallBufListener struct{ net.Listener }
+
+func (l smallBufListener) Accept() (net.Conn, error) {
+	c, err := l.Listener.Accept()
+	if tc, ok := c.(*net.TCPConn); ok && err == nil {
+		tc.SetWriteBuffer(4096)
+	}
+	return c, err
+}
+
+func init() {
+	// client side of the slow-network mode: DSN network "verifslow" dials TCP with a tiny receive buffer
+	mysqldrv.RegisterDialContext("verifslow", func(ctx context.Context, addr string) (net.Conn, error) {
+		var d net.Dialer
+		c, err := d.DialContext(ctx, "tcp", addr)
+		if tc, ok := c.(*net.TCPConn); ok && err == nil {
+			tc.SetReadBuffer(4096)
+		}
+		return c, err
+	})
+}
+
+// StartServerSlowNet is StartServer with tiny socket buffers on the server side (see smallBufListener);
+// combine with Srv.OpenSlow on the client side.
+func (e *Eng) StartServerSlowNet() (*Srv, error) { return e.startServer(true) }
+
 // StartServer starts a TCP server for the engine on a free loopback port (unix sockets do not work
 // in this sandbox: SO_REUSEPORT is rejected on them).
-func (e *Eng) StartServer() (*Srv, error) {
+func (e *Eng) StartServer() (*Srv, error) { return e.startServer(false) }
+
+func (e *Eng) startServer(slow bool) (*Srv, error) {
 	var lastErr error
 	for try := 0; try < 5; try++ {
 		// Bind the listener ourselves on an ephemeral port and hand it to the server: probing for a free
@@ -35,6 +68,9 @@ func (e *Eng) StartServer() (*Srv, error) {
 			continue
 		}
 		port := l.Addr().(*net.TCPAddr).Port
+		if slow {
+			l = smallBufListener{l}
+		}
 		cfg := server.Config{Protocol: "tcp", Address: fmt.Sprintf("127.0.0.1:%d", port), Listener: l}
 		s, err := server.NewServer(cfg, e.E, sql.NewContext, memory.NewSessionBuilder(e.Pro), nil)
 		if err != nil {
@@ -74,6 +110,18 @@ func (s *Srv) DSN(user, pass, params string) string {
 // Open opens a database/sql pool limited to one connection (so a *sql.DB is one MySQL session).
 func (s *Srv) Open(user, pass, params string) (*dsql.DB, error) {
 	db, err := dsql.Open("mysql", s.DSN(user, pass, params))
+	if err != nil {
+		return nil, err
+	}
+	db.SetMaxOpenConns(1)
+	db.SetMaxIdleConns(1)
+	return db, nil
+}
+
+// OpenSlow is Open over the slow-network dialer (tiny client receive buffer).
+func (s *Srv) OpenSlow(user, pass, params string) (*dsql.DB, error) {
+	dsn := strings.Replace(s.DSN(user, pass, params), "@tcp(", "@verifslow(", 1)
+	db, err := dsql.Open("mysql", dsn)
 	if err != nil {
 		return nil, err
 	}
